@@ -5,6 +5,7 @@ import (
 	"strings"
 
 	gonanoid "github.com/matoous/go-nanoid/v2"
+	"github.com/orda-io/orda/client/pkg/simhook"
 )
 
 const (
@@ -13,6 +14,9 @@ const (
 )
 
 func newUniqueID() string {
+	if s, ok := simhook.UID(); ok {
+		return s
+	}
 	return gonanoid.Must(defaultUIDLength)
 }
 
